@@ -211,7 +211,10 @@ func (r *NgReader) readOption() error {
 		}
 		return nil
 	}
-	if length != 0 {
+	if length == 0 {
+		// an empty value must not leave the previous option's bytes behind
+		r.currentOption.value = r.currentOption.value[:0]
+	} else {
 		if length < uint16(cap(r.currentOption.value)) {
 			r.currentOption.value = r.currentOption.value[:length]
 		} else {
